@@ -107,6 +107,21 @@ func c05RR(r *fw.R, ar *wire.RR, tn string) {
 		r.Fail(c05Key(key("rdata-differs"), ar), "text %q re-parses to different octets\n got  %x\n want %x", text, got, want)
 		return
 	}
+	// as a line of a zone: the same text followed by another record line — the reader may neither run into the
+	// next line nor leave something of this one behind
+	{
+		zp := dns.NewZoneParser(strings.NewReader(text+"\nnext.example.\t7\tIN\tA\t192.0.2.77\n"), "", "")
+		var got []dns.RR
+		for x, ok := zp.Next(); ok && len(got) < 4; x, ok = zp.Next() {
+			got = append(got, x)
+		}
+		switch {
+		case zp.Err() != nil || len(got) != 2:
+			r.Fail(c05Key(key("zone-context"), ar), "the text followed by another record line reads as %d records, Err() = %v (alone it reads fine)\n text %q", len(got), zp.Err(), text)
+		case got[0].String() != rr2.String() || got[1].Header().Name != "next.example." || got[1].String() != "next.example.\t7\tIN\tA\t192.0.2.77":
+			r.Fail(c05Key(key("zone-context"), ar), "the text followed by another record line reads as %q and %q\n text %q", got[0], got[1], text)
+		}
+	}
 	// text-origin: printing the parsed record and parsing again is stable
 	text2 := rr2.String()
 	rr3, err := dns.NewRR(text2)
